@@ -16,6 +16,21 @@ def program(ctx, config=None):
     return _CACHE[k]
 
 
+_ARITH = {"add": "Add", "sub": "Sub", "mul": "Mul", "div": "Div", "rem": "Rem", "shl": "Shl", "shr": "Shr", "neg": "Neg"}
+
+
+def norm_key(key):
+    fn, kind, detail = (key.split("|", 2) + ["", ""])[:3]
+    fn = fn.replace("::{closure}", "")
+    if kind == "assert" and detail.startswith("Overflow:"):
+        kind, detail = "arith", detail.split(":")[1]
+    elif kind == "overflow-call":
+        m = re.search(r"::(add|sub|mul|div|rem|shl|shr|neg)(_assign)?$", detail)
+        if m:
+            kind, detail = "arith", _ARITH[m.group(1)]
+    return "%s|%s|%s" % (fn, kind, detail)
+
+
 def panic_audit(ctx, rep, P, groups, extra_roots=None, floor_sites=0):
     """every panic-capable site reachable from the entry groups is discharged by intervals or audited"""
     F = ctx.facts()
@@ -34,6 +49,7 @@ def panic_audit(ctx, rep, P, groups, extra_roots=None, floor_sites=0):
     rep.check(P + ".profile", "analysed with overflow checks and debug assertions on", F.j["overflow_checks"] and F.j["debug_assertions"], "",
               "the MIR analysed is the checked profile's: its panic sites are a superset of the optimised profile's")
     seen = {}
+    und_all = {}
     total = dis = aud = 0
     bykind = {}
     for k in sorted(reach):
@@ -44,7 +60,6 @@ def panic_audit(ctx, rep, P, groups, extra_roots=None, floor_sites=0):
         if not ss:
             continue
         discharge(F, b, ss, prog.analysis(b))
-        und = {}
         for s in ss:
             total += 1
             bykind[s.kind] = bykind.get(s.kind, 0) + 1
@@ -52,19 +67,25 @@ def panic_audit(ctx, rep, P, groups, extra_roots=None, floor_sites=0):
                 dis += 1
                 rep.ok(P + ".panic", "discharged:%s" % s.key(), s.loc(), s.why)
             else:
-                und.setdefault(s.key(), []).append(s)
-        for key, sites in und.items():
-            a = audit.get(key)
-            n = a["n"] if a else 0
-            if len(sites) <= n:
-                for s in sites:
-                    aud += 1
-                    rep.ok(P + ".panic", "audited:%s" % key, s.loc(), a["why"])
-            else:
-                for s in sites:
-                    rep.bad(P + ".panic", "site:%s" % key, s.loc(),
-                            "panic-capable site (%s %s) reachable from %s via %s is neither discharged by the interval analysis nor covered by the audit table (%d audited, %d present)" % (
-                                s.kind, s.detail, "/".join(groups), " -> ".join(strip_generics(x) for x in cg.path_to(k)[-4:]), n, len(sites)))
+                und_all.setdefault(norm_key(s.key()), []).append((s, k))
+    # audited sites are matched on a normalised key: a site that moves between a function and one of its closures, or
+    # whose arithmetic is lowered as a trait call instead of a primitive operation, is still the same audited site
+    naudit = {}
+    for key, a in audit.items():
+        e = naudit.setdefault(norm_key(key), {"n": 0, "why": a["why"]})
+        e["n"] += a["n"]
+    for nkey, sites in sorted(und_all.items()):
+        a = naudit.get(nkey)
+        n = a["n"] if a else 0
+        if len(sites) <= n:
+            for s, k in sites:
+                aud += 1
+                rep.ok(P + ".panic", "audited:%s" % s.key(), s.loc(), a["why"])
+        else:
+            for s, k in sites:
+                rep.bad(P + ".panic", "site:%s" % s.key(), s.loc(),
+                        "panic-capable site (%s %s) reachable from %s via %s is neither discharged by the interval analysis nor covered by the audit table (%d audited, %d present)" % (
+                            s.kind, s.detail, "/".join(groups), " -> ".join(strip_generics(x) for x in cg.path_to(k)[-4:]), n, len(sites)))
     rep.note(P + ".engineB", {"reachable_bodies": len(reach), "sites": total, "discharged_by_intervals": dis, "audited": aud, "by_kind": bykind})
     rep.floor(P + ".panic", "panic-capable sites enumerated", total, floor_sites)
     return reach, prog
